@@ -56,34 +56,22 @@ func c02Faults(d *vCtx) error {
 	per := d.pInt("per_message", 3) // offsets per message: first / middle / last
 	random2 := d.pInt("random_double", 0)
 	bases := c02Bases(d.seed, thorough)
+	layouts, err := e2eLayouts(d, bases)
+	if err != nil {
+		return err
+	}
 	return vShards(d, shards, func(si, n int) error {
 		base := e2eShmBase()
 		defer os.RemoveAll(base)
 		if err := e2eCaptureStdout(d.out); err != nil {
 			return err
 		}
-		// every child re-probes the message layout itself (cheap, 4..10 clean runs) so that no
-		// state is shared between processes
-		ptr, err := vNewTrace(d.path("probe.ndjson"))
-		if err != nil {
-			return err
-		}
 		var jobs []c02Job
 		kinds := []string{"flip", "del", "dup", "ins", "trunc"}
 		rng := rand.New(rand.NewSource(d.seed*7 + 11))
 		for bi, c := range bases {
-			cc := *c
-			cc.ID = 800000 + bi
-			var w []*e2eMsg
-			var err error
-			for try := 0; try < 4; try++ { // a loaded machine may time a clean run out: retry
-				if w, err = e2eProbe(&cc, e2eWorkDir(base, cc.ID), ptr); err == nil {
-					break
-				}
-			}
-			if err != nil {
-				return err
-			}
+			_ = c
+			w := layouts[bi]
 			for _, m := range w {
 				var offs []int
 				switch {
@@ -119,7 +107,6 @@ func c02Faults(d *vCtx) error {
 				jobs = append(jobs, c02Job{bi, fs, "double"})
 			}
 		}
-		_ = ptr.Close()
 		tr, err := vNewTrace(d.path("obs.ndjson"))
 		if err != nil {
 			return err
